@@ -105,6 +105,9 @@ type avcPpsV struct {
 	T8x8                               bool
 	Pscaling                           string
 	Cqp2                               int
+	Groups, Maptype                    int
+	Gdir                               bool
+	Grate, Gmapunits                   int
 }
 
 type avcSliceV struct {
@@ -430,7 +433,39 @@ func c15Pps(rep *Report, line []byte) error {
 	k.eq("seq_parameter_set_id", got.SeqParameterSetID, p.Spsid)
 	k.eq("entropy_coding_mode_flag", got.EntropyCodingModeFlag, p.Cabac)
 	k.eq("bottom_field_pic_order_in_frame_present_flag", got.BottomFieldPicOrderInFramePresentFlag, p.Bottomfield)
-	k.eq("num_slice_groups_minus1", got.NumSliceGroupsMinus1, 0)
+	k.eq("num_slice_groups_minus1", got.NumSliceGroupsMinus1, p.Groups)
+	if p.Groups > 0 {
+		k.eq("slice_group_map_type", got.SliceGroupMapType, p.Maptype)
+		var want []uint
+		switch p.Maptype {
+		case 0:
+			for i := 0; i <= p.Groups; i++ {
+				want = append(want, uint(3*i+1))
+			}
+			if !reflect.DeepEqual(got.RunLengthMinus1, want) {
+				k.m = append(k.m, mism{"run_length_minus1", got.RunLengthMinus1, want})
+			}
+		case 2:
+			var tl, br []uint
+			for i := 0; i < p.Groups; i++ {
+				tl, br = append(tl, uint(2*i)), append(br, uint(2*i+5))
+			}
+			if !reflect.DeepEqual(got.TopLeft, tl) || !reflect.DeepEqual(got.BottomRight, br) {
+				k.m = append(k.m, mism{"top_left / bottom_right", []interface{}{got.TopLeft, got.BottomRight}, []interface{}{tl, br}})
+			}
+		case 3, 4, 5:
+			k.eq("slice_group_change_direction_flag", got.SliceGroupChangeDirectionFlag, p.Gdir)
+			k.eq("slice_group_change_rate_minus1", got.SliceGroupChangeRateMinus1, p.Grate)
+		case 6:
+			k.eq("pic_size_in_map_units_minus1", got.PicSizeInMapUnitsMinus1, p.Gmapunits)
+			for i := 0; i <= p.Gmapunits; i++ {
+				want = append(want, uint(i%(p.Groups+1)))
+			}
+			if !reflect.DeepEqual(got.SliceGroupID, want) {
+				k.m = append(k.m, mism{"slice_group_id", got.SliceGroupID, want})
+			}
+		}
+	}
 	k.eq("num_ref_idx_l0_default_active_minus1", got.NumRefIdxI0DefaultActiveMinus1, p.L0)
 	k.eq("num_ref_idx_l1_default_active_minus1", got.NumRefIdxI1DefaultActiveMinus1, p.L1)
 	k.eq("weighted_pred_flag", got.WeightedPredFlag, p.Wpred)
@@ -471,6 +506,7 @@ func c15Slice(rep *Report, line []byte) error {
 		Fmo       bool      `json:"fmo"`
 		Sepcol    bool      `json:"sepcol"`
 		Deltazero bool      `json:"deltazero"`
+		ChangeCyc int       `json:"changecycle"`
 	}
 	if err := json.Unmarshal(line, &c); err != nil {
 		return err
@@ -582,6 +618,9 @@ func c15Slice(rep *Report, line []byte) error {
 			k.eq("slice_alpha_c0_offset_div2", sh.SliceAlphaC0OffsetDiv2, s.Alpha)
 			k.eq("slice_beta_offset_div2", sh.SliceBetaOffsetDiv2, s.Beta)
 		}
+	}
+	if c.ChangeCyc >= 0 {
+		k.eq("slice_group_change_cycle", sh.SliceGroupChangeCycle, c.ChangeCyc)
 	}
 	k.eq("slice_header_size", sh.Size, c.Size)
 	reportMism(rep, pre, k, cs)
